@@ -270,6 +270,8 @@ OPS = {
     'ucross': ('VV', 'V', ['', ''], '', 'vector'),
     'pdot': ('PP', 'S', ['', ''], 'A', 'vector'), 'pcross': ('PP', 'S', ['', ''], 'A', 'vector'),
     'pnorm': ('P', 'S', ['nzv'], 'P', 'vector'),
+    # Pair-only relabelings with a sign (seeded change C06-L: rot90 negated along the denominator axis)
+    'rot90': ('P', 'P', [''], '', 'vector'), 'swapxy': ('P', 'P', [''], '', 'vector'),
     'from_scalars': ('SSS', 'V', ['', '', ''], '', 'scalars'), 'to_scalar': ('V', 'S', [''], 'A', 'scalars'),
     'pair_from_scalars': ('SS', 'P', ['', ''], '', 'scalars'),
     # matrices
@@ -580,6 +582,8 @@ def apply_op(Pm, node, a, rec=True):
         return getattr(a[0], op)(**kw)
     if op == 'pnorm':
         return a[0].norm(**kw)
+    if op in ('rot90', 'swapxy'):
+        return getattr(a[0], op)(**kw)
     if op == 'with_norm':
         return a[0].with_norm(c, **kw)
     if op in ('vadd', 'madd'):
@@ -818,7 +822,9 @@ def run_case(case, Pm):
                 kj = np.broadcast_to((keep & ~bad_mask).reshape(keep.shape + (1,) * (vals.ndim - keep.ndim)), vals.shape)
                 car = dv[..., j]
                 scale = 1 + np.abs(rich) + np.abs(car)
-                smooth = kj & np.isfinite(rich) & (err <= 1e-4 * scale) & (np.abs(vals) < 1e6)
+                # smoothness is judged on the finite differences alone (a huge carried derivative at an ill-conditioned
+                # point - twovec of nearly parallel vectors - must not make the two step sizes look consistent)
+                smooth = kj & np.isfinite(rich) & (err <= 1e-4 * (1 + np.abs(rich))) & (np.abs(vals) < 1e6)
                 stats['skipped_nonsmooth'] += int(np.sum(kj & ~smooth))
                 stats['elements'] += int(np.sum(smooth))
                 diff = np.abs(rich - car)
